@@ -1,3 +1,46 @@
-From Coq Require Import List String.
-Example C07_placeholder : True. Proof. exact I. Qed.
-Print Assumptions C07_placeholder.
+(** C07 — a search expression unfolds to exactly the typed searches its syntax denotes.  Property theorems only.
+    Proved for all configurations / all search strings: the structural clauses (every result typed with no unapplied query,
+    no duplicates, sorted, the only error is SpilException [or Unmodelled = outside the modelled urllib fragment]) and the
+    distribution of "," alternatives in the path part as a cartesian product.  The full denotation (aliases, "**" levels
+    restricted to leaf types, narrowing, query application) is an executable python specification (tools/props/c07.py,
+    independent of model and code) compared with the implementation on every run: that part is NOT a theorem (partial). *)
+From Coq Require Import List String Ascii Bool Arith Permutation Sorted.
+From Spil Require Import Base.Str Base.Dict Base.Outcome Regex.Re Conf.Conf Conf.WF Sid.Sid
+  Search.Unfold Search.FindList Search.GlobProofs Search.FindListProofs Search.UnfoldProofs.
+From SpilGen Require Hamlet.
+Import ListNotations.
+Local Open Scope string_scope.
+
+Theorem C07_typed_clean : forall Ld s u e l, unfold_search Ld s u e = Ok l ->
+  Forall (fun x => sid_bool x = true /\ count "?" (s_string x) = 0) l.
+Proof. exact unfold_typed_clean. Qed.
+Print Assumptions C07_typed_clean.
+
+Theorem C07_nodup : forall Ld s u e l, unfold_search Ld s u e = Ok l -> NoDup (map uri l).
+Proof. exact unfold_uri_nodup. Qed.
+Print Assumptions C07_nodup.
+
+Theorem C07_sorted : forall Ld s u e l, unfold_search Ld s u e = Ok l -> StronglySorted sid_key_le l.
+Proof. exact unfold_sorted. Qed.
+Print Assumptions C07_sorted.
+
+Theorem C07_errors : forall c Ld, load c = Some Ld -> wf_loadedb Ld = true ->
+  forall s u e ex, unfold_search Ld s u e = Raise ex -> ex = SpilException \/ ex = Unmodelled.
+Proof. exact unfold_errors. Qed.
+Print Assumptions C07_errors.
+
+(* every "," alternative in a segment is distributed: or_on_path is the cartesian product of the alternatives *)
+Theorem C07_comma_product : forall s, contains start_marker s = false ->
+  forall r, In r (or_on_path s) <->
+    exists choice, Forall2 (fun part alt => In alt (if contains ors part then map strip (split_c "," part) else [part]))
+                           (split_c "/" s) choice /\ r = join "/" choice.
+Proof. exact or_on_path_product'. Qed.
+Print Assumptions C07_comma_product.
+
+Example C07_instance :
+  match unfold_search Hamlet.the_loaded "hamlet/a,s/*" false false with
+  | Ok l => map uri l
+  | Raise _ => []
+  end = ["asset__assettype:hamlet/a/*"; "shot__sequence:hamlet/s/*"].
+Proof. vm_compute. reflexivity. Qed.
+Print Assumptions C07_instance.
